@@ -135,7 +135,7 @@ package raft
 //@   ensures lfirst(l) - 1 <= i && i <= llast(l) ==> (result <==> lterm(l, i) == term)
 //@   ensures (i < lfirst(l) - 1 || i > llast(l)) ==> (result <==> term == 0)
 
-//@ property C02 C01
+//@ property C02 C01 C03
 //@ func (l *raftLog) isUpToDate(lasti uint64, term uint64) bool
 //@   requires lOK(l)
 //@   ensures result <==> (term > lterm(l, llast(l)) || (term == lterm(l, llast(l)) && lasti >= llast(l)))
@@ -248,7 +248,7 @@ package raft
 //@ spec prsOK(r *raft) bool = r.prs != nil && (forall id uint64 :: in(id, r.prs) ==> r.prs[id] != nil)
 //@ spec rOK(r *raft) bool = r != nil && r.raftLog != nil && lOK(r.raftLog) && prsOK(r)
 
-//@ property C02 C01
+//@ property C02 C01 C03
 // majority of the VOTERS (r.prs); learners are not counted
 //@ func (r *raft) quorum() int
 //@   requires r != nil
@@ -729,3 +729,11 @@ package raft
 //@   ensures len(r.msgs) == old(len(r.msgs)) + 1 && r.msgs[len(r.msgs)-1].Type == pb.MsgHeartbeatResp && r.msgs[len(r.msgs)-1].To == m.From
 //@   ensures r.Term == old(r.Term) && r.Vote == old(r.Vote) && r.state == old(r.state) && r.id == old(r.id) && ghost(leaderships, r) == old(ghost(leaderships, r))
 //@   modifies r.raftLog.committed, r.msgs, r.msgs[len(r.msgs):cap(r.msgs)]
+
+
+// a heartbeat never forwards a commit index beyond what the follower is known to hold: min(Match, committed)
+//@ property C02 C03
+//@ func (r *raft) sendHeartbeat(to uint64, ctx []byte)
+//@   requires r != nil && r.raftLog != nil && (in(to, r.prs) || in(to, r.learnerPrs)) && prsOK(r) && lprsOK(r)
+//@   callassert send arg1.Type == pb.MsgHeartbeat && arg1.To == to && ((in(to, r.prs) ==> arg1.Commit == min(r.prs[to].Match, r.raftLog.committed)) && (!in(to, r.prs) ==> arg1.Commit == min(r.learnerPrs[to].Match, r.raftLog.committed)))
+//@   modifies r.msgs, r.msgs[len(r.msgs):cap(r.msgs)]
